@@ -6,7 +6,7 @@
 //   I <count>                       the injector yields (injected count since the program began)
 //   B <prog> <randcount> <injstate> a program begins (the point a run can be restored at)
 //   X <prog> <result...>            a program ended with these results
-// usage: vrt repro --seed S --freq F --width W [--sleep NS] --progs a,b,c [--twice] [--restore <prog> <randcount> <injstate>] [--out FILE]
+// usage: vrt repro --seed S --freq F --width W [--sleep NS] --progs a,b,c [--twice] [--keep-sched] [--restore <prog> <randcount> <injstate>] [--out FILE]
 #include "common.hpp"
 
 #include <yaclib/async/contract.hpp>
@@ -65,7 +65,9 @@ void OnPick(int where, const std::uint64_t* ids, int n, std::uint64_t chosen) {
   }
   std::fprintf(g_out, " %d\n", Norm(chosen));
 }
+std::uint64_t g_time_base = 0;  // virtual time when the program began (the scheduler may be older than the program)
 void OnResume(std::uint64_t id, std::uint64_t time) {
+  time -= g_time_base;
   if (g_recording) {
     std::fprintf(g_out, "S %d %llu %llu\n", Norm(id), static_cast<unsigned long long>(time >> 30),
                  static_cast<unsigned long long>(time & ((1ULL << 30) - 1)));
@@ -229,6 +231,8 @@ std::string RunProg(const std::string& name) {
 
 // Each program runs under a fresh scheduler in its own root fiber; the (random-count, injector-state) pair is taken
 // OUTSIDE the scheduler right before the root fiber is created -- the point a run is restored at.
+yaclib::fault::Scheduler* g_kept = nullptr;  // --keep-sched: one scheduler for the whole process, as a client would have
+
 void RunAll(const std::vector<std::string>& progs, const std::string& only) {
   for (auto& p : progs) {
     if (!only.empty() && p != only) {
@@ -239,7 +243,15 @@ void RunAll(const std::vector<std::string>& progs, const std::string& only) {
     g_inject_base = yaclib::GetInjectedCount();
     g_recording = true;
     std::string res;
-    {
+    if (g_kept != nullptr) {
+      // virtual time keeps running from program to program and from run to run: only differences may matter
+      g_time_base = g_kept->GetTimeNs();
+      yaclib_std::thread root([&] {
+        res = RunProg(p);
+      });
+      root.join();
+    } else {
+      g_time_base = 0;
       yaclib::fault::Scheduler scheduler;
       yaclib::fault::Scheduler::Set(&scheduler);
       yaclib_std::thread root([&] {
@@ -257,6 +269,7 @@ int ReproMain(int argc, char** argv) {
   std::uint32_t seed = 1, freq = 4, width = 10, sleep = 200;
   std::vector<std::string> progs{"pool"};
   bool twice = false;
+  bool keep_sched = false;
   std::string restore_prog;
   std::uint64_t restore_count = 0;
   std::uint32_t restore_state = 0;
@@ -286,6 +299,8 @@ int ReproMain(int argc, char** argv) {
       }
     } else if (a == "--twice") {
       twice = true;
+    } else if (a == "--keep-sched") {
+      keep_sched = true;
     } else if (a == "--restore") {
       restore_prog = argv[++i];
       restore_count = std::strtoull(argv[++i], nullptr, 10);
@@ -307,6 +322,11 @@ int ReproMain(int argc, char** argv) {
   yaclib::fiber::SetStackSize(32);
   yaclib::SetAtomicFailFrequency(7);
   int runs = twice ? 2 : 1;
+  yaclib::fault::Scheduler kept;
+  if (keep_sched) {
+    g_kept = &kept;
+    yaclib::fault::Scheduler::Set(&kept);
+  }
   for (int r = 0; r != runs; ++r) {
     g_ids.clear();
     yaclib::SetSeed(seed);
@@ -317,6 +337,10 @@ int ReproMain(int argc, char** argv) {
     }
     std::fprintf(g_out, "RUN %d seed=%u freq=%u width=%u\n", r, seed, freq, width);
     RunAll(progs, restore_prog);
+  }
+  if (keep_sched) {
+    yaclib::fault::Scheduler::Set(nullptr);
+    g_kept = nullptr;
   }
   if (g_out != stdout) {
     std::fclose(g_out);
